@@ -216,6 +216,10 @@ func genNameLabel(rng *rand.Rand) string {
 	case 7:
 		// adjacent hyphens, in host and service labels
 		l = pick(rng, "a--b", "_a--b", "_my--svc", "x---y", "_--", "xn--a--b", "_a-", "_-a")
+	case 9:
+		// labels that code is likely to special-case (well-known service / special-use names)
+		l = pick(rng, "_sub", "_tcp", "_udp", "_tls", "_http", "_dns-sd", "_services", "local", "localhost", "arpa", "in-addr", "ip6",
+			"invalid", "test", "onion", "example", "home", "internal", "www", "_SUB", "_Tcp")
 	case 8:
 		// digits and inner hyphens only (a non-digit that is not a letter): a valid final label;
 		// and other labels whose only non-digit is a single letter or hyphen at some position
@@ -239,6 +243,20 @@ func genName(rng *rand.Rand) string {
 	ls := make([]string, nl)
 	for i := range ls {
 		ls[i] = genNameLabel(rng)
+	}
+	if rng.IntN(12) == 0 {
+		// a service label at / beyond its 16-byte limit in front of every kind of neighbour
+		// label; the rest of the name is valid, so that this label decides
+		n := pick(rng, 15, 16, 17, 18, 30, 62, 63, 64)
+		svc := "_" + pick(rng, "a", "x", "7") + genLabel(rng, n-3) + pick(rng, "a", "z", "0")
+		ls = []string{svc, pick(rng, "_sub", "_sub", "_tcp", "_udp", "_http", "_SUB", "sub", "_sub-x", genNameLabel(rng))}
+		for i := rng.IntN(3); i > 0; i-- {
+			ls = append(ls, pick(rng, "_http", "_tcp", "_udp", "example", "a", "b-c", "_sub"))
+		}
+		ls = append(ls, pick(rng, "com", "local", "x", "a1"))
+		if rng.IntN(4) == 0 {
+			ls = append([]string{pick(rng, "inst", "_x", "a-b")}, ls...)
+		}
 	}
 	s := strings.Join(ls, ".")
 	switch rng.IntN(10) {
